@@ -1,7 +1,7 @@
 """Contract of kyupy.sim.Heap (C08): representation invariant HeapInv + abstract view ``live = dom(chunks) \\ released``."""
 import z3
 
-from pyvc.engine import State
+from pyvc.engine import State, NotInSubset
 from pyvc.values import SInt, SBool, to_int
 from pyvc.models_obj import SObj
 from pyvc.models_coll import SDict, SList, bisect_prims, sorted_strict
@@ -113,6 +113,45 @@ def free_config():
     return Config('free', {'post': post}, setup, replay, finite=heap_finite)
 
 
+def init_config():
+    """Heap(): establishes HeapInv with an empty live view (base case of the induction over alloc/free histories)"""
+    def setup(ex):
+        st = State()
+        st.env['self'] = SObj.new(st, 'self')
+        return st
+
+    def post(ex, st):
+        try:
+            s1 = view(st)
+        except KeyError:
+            yield 'chunks, released, current_size, max_size are initialised', False
+            return
+        for nm, c in heap_inv(s1):
+            yield 'HeapInv: ' + nm, SBool(c)
+        x = z3.Int('hx')
+        yield 'no chunk is live, sizes are zero', SBool(z3.And(z3.ForAll([x], z3.Not(live(s1, x))), s1['cs'] == 0, s1['ms'] == 0))
+    return Config('constructor', {'post': post}, setup, None)
+
+
+def init_prims(globs):
+    def mkdict(ex, st, args, kwargs, node):
+        if args or kwargs:
+            raise NotInSubset('dict(...) with arguments')
+        st.heap[('chunks', 'dom')] = z3.K(I, z3.BoolVal(False))
+        st.heap[('chunks', 'val')] = z3.K(I, z3.IntVal(0))
+        return SDict('chunks')
+
+    def mklist(ex, st, args, kwargs, node):
+        if args or kwargs:
+            raise NotInSubset('list(...) with arguments')
+        st.heap[('released', 'arr')] = z3.K(I, z3.IntVal(0))
+        st.heap[('released', 'len')] = SInt(z3.IntVal(0))
+        st.heap[('released', 'mem')] = z3.K(I, z3.BoolVal(False))
+        st.heap[('released', 'pos')] = z3.K(I, z3.IntVal(0))
+        return SList('released')
+    return {dict: mkdict, list: mklist}
+
+
 def heap_finite(ex):
     s0 = view(ex.st0)
     extra = [s0['cs'] <= 10, s0['rlen'] <= 4]
@@ -193,5 +232,6 @@ def run_heap(args):
 def targets():
     def prims(globs):
         return bisect_prims(globs['bisect'], globs['insort_left'])
-    return [Target('sim', 'Heap.alloc', [alloc_config()], prims=prims, instantiate='fallback'),
+    return [Target('sim', 'Heap.__init__', [init_config()], prims=init_prims, instantiate='fallback'),
+            Target('sim', 'Heap.alloc', [alloc_config()], prims=prims, instantiate='fallback'),
             Target('sim', 'Heap.free', [free_config()], prims=prims, instantiate='fallback')]
